@@ -42,7 +42,7 @@ def find_impl_fn(facts, self_ty, trait, fname):
         if im["self_ty"] == self_ty and im.get("trait_name") == trait:
             for fn in im["fns"]:
                 if fn["name"] == fname:
-                    return fn
+                    return facts.touch("%s::%s" % (self_ty, fname), fn)
     raise ir.AnchorMissing("impl %s for %s :: %s" % (trait, self_ty, fname))
 
 
